@@ -30,7 +30,8 @@ def hdf5_writer(filename, data, components=None):
 
     from h5py import File
 
-    f = File(filename, 'w')
+    # (track_order so that the components can be read back in the same order)
+    f = File(filename, 'w', track_order=True)
 
     for cid in data.main_components + data.derived_components:
 
